@@ -128,7 +128,7 @@ func shJudgeSeq(c *mon.Ctx, in *shSeq, legacy bool) {
 	if len(cur.Ins) == 0 {
 		return
 	}
-	tx := cur.Build()
+	tx := cur.BuildShared()
 	// results handed to the caller earlier must stay what they were (the caller owns them)
 	type kept struct {
 		live, snap []byte
@@ -194,7 +194,7 @@ func shJudgeSeq(c *mon.Ctx, in *shSeq, legacy bool) {
 			return
 		}
 		// and the transaction is what the edits made it, nothing else
-		if b := tx.Bytes(); !bytes.Equal(b, cur.Build().Bytes()) {
+		if b := tx.ExtendedBytes(); !bytes.Equal(b, cur.Build().ExtendedBytes()) {
 			c.Violationf(P+":sequence:tx-modified", "step %d: after CalcInputSignatureHash the transaction no longer serialises as the edited shape does", k)
 			return
 		}
